@@ -6,8 +6,16 @@ package ir
 // ---- C17: loop-nest normalisation recurses at most MaxLoopAnalysisDepth deep
 //@ func (*Canonicalizer).normalizeInductionVariablesRecursive
 //@   noframe
-//@   protocol-only C17
+//@   protocol-only C17 C01
 //@   decreases [C17.term] MaxLoopAnalysisDepth - depth
+// C01: the passes that range over Go maps (l.Inductions, l.Blocks) visit every entry and treat each alike, so their
+// outcome does not depend on the iteration order: no early exit, and every basic induction variable visited so far
+// has been virtualised.
+//@   loop 1 complete [C01.maprange]
+//@   loop 2 complete [C01.maprange]
+//@   loop 3 complete [C01.maprange]
+//@   loop 4 complete [C01.maprange]
+//@   loop 2 invariant [C01.maprange] forall p in #visited :: l.Inductions[p].Type == loop.IVTypeBasic ==> c.VirtualizedInstrs[iface(p, "*ssa.Phi")]
 
 // ---- C03 / C02: the normalisations are gated on side conditions under which they preserve meaning
 //@ pred typeOfV(v ssa.Value) = purecall("invoke:golang.org/x/tools/go/ssa.Value.Type", v)
@@ -113,3 +121,23 @@ package ir
 //@   noframe
 //@   call (*sync.Pool).Put assert [C01.pool] c != nil && fieldsReset(c, "Policy,StrictMode,output,scratch")
 //@   ensures [C01.pool] true
+
+// ---- C01: order discipline for the passes that collect from maps: what is ranged over in map order is sorted by a
+// total key (block index) before it feeds the output.
+//@ func (*Canonicalizer).ApplyVirtualControlFlowFromState
+//@   noframe
+//@   protocol-only C01
+//@   deterministic C01
+//@   uses ssaidx
+//@ func (*Canonicalizer).ApplyVirtualControlFlowFromState$1
+//@   requires 0 <= i && i < len(*blocks) && 0 <= j && j < len(*blocks)
+//@   ensures result == ((*blocks)[i].Index < (*blocks)[j].Index)
+
+//@ func (*Canonicalizer).CanonicalizeFunction
+//@   noframe
+//@   protocol-only C01
+//@   deterministic C01
+//@   uses ssaidx
+//@ func (*Canonicalizer).CanonicalizeFunction$1
+//@   requires 0 <= i && i < len(*unreachables) && 0 <= j && j < len(*unreachables)
+//@   ensures result == ((*unreachables)[i].Index < (*unreachables)[j].Index)
